@@ -18,7 +18,7 @@ CONFIG = {
     "C05": {"jobs": [lockstep("C05", 4000, 60000), special("resizeidle", 400, 4000), special("spanline", 300, 4000)]},
     "C06": {"jobs": [lockstep("C06", 4000, 60000), special("resizeidle", 400, 4000)]},
     "C07": {"jobs": [lockstep("C07", 4000, 60000), special("roundtrip", 300, 4000), special("spanline", 300, 4000)]},
-    "C08": {"jobs": [special("segmentation", 1500, 30000)]},
+    "C08": {"jobs": [special("segmentation", 1500, 30000), special("resizeidle", 400, 4000)]},
     "C09": {"jobs": [lockstep("C09", 4000, 60000), special("embed", 1500, 30000)]},
     "C10": {"jobs": [lockstep("C10", 4000, 60000), special("spanline", 300, 4000)]},
     "C11": {"jobs": [special("roundtrip", 1500, 20000), special("ttymirror", 600, 8000), lockstep("C02", 1000, 15000), special("spanline", 300, 4000)]},
